@@ -1,45 +1,81 @@
 (* C02 — shared negative-cache state behind Cache.ServeDNS (middleware/cache): the admission guard of
-   cache.ResponseWriter.WriteMsg, the RFC 8198 denial-proof index (denialProofCache: record / extract /
-   lookupWithMeta / denialProofEvaluate / denialProofResponse, NSEC family) and the RFC 8020 subtree
-   cuts, including what a synthesized hit re-admits.  Definitions only.
+   cache.ResponseWriter.WriteMsg, the RFC 8198 denial-proof index (denialProofCache: recordWithKind /
+   extract / enforceZoneLimitsLocked / lookupWithMeta / denialProofEvaluate / pruneZoneLocked, NSEC
+   family) and the RFC 8020 subtree cuts (nxDomainCutCache: record / enforceZoneLimitsLocked / lookup).
+   Definitions only.
 
    One signer zone, class IN, every message of the generated family (SOA and each NSEC RRset signed,
-   all in the zone, one TTL per message, DO=1, every question asked once so that the exact-answer
-   cache never answers).  Entry/byte limits and the NSEC3 half of the index are not modelled. *)
+   all in the zone, distinct owners, one TTL per message, DO=1, every question asked once so that the
+   exact-answer cache never answers, a top-level client exchange: a synthesized hit is written to the
+   client's writer and is NOT fed back into the shared state).  The per-zone ENTRY limits of both
+   caches (FIFO eviction) are modelled; the byte limits and the global limits are not (the driver checks
+   that no generated entry exceeds the per-entry byte budget the limits are derived from, so the entry
+   limit always binds first); the NSEC3 half of the index is not modelled. *)
 From Sdns Require Import Common.Base Gen.C02 C02.Model C02.ModelCut.
 Open Scope Z_scope.
 
-(* proof index: SOA expiry; one entry per NSEC owner with its expiry.  cuts: denied name, expiry, the
-   proof records stored with the cut *)
+(* proof index of the zone: SOA expiry; the NSEC entries (one per owner) with their expiries, oldest
+   admission first (the order of denialProofCache.fifo).  cuts: denied name and expiry, oldest first
+   (nxDomainCutZoneState.fifo).  Expired entries stay until something removes them. *)
 Record shared := mk_shared {
   sh_soa : option Z;
   sh_recs : list (cnsec * Z);
-  sh_cuts : list (rname * Z * list cnsec)
+  sh_cuts : list (rname * Z)
 }.
 Definition shared_empty : shared := mk_shared None [] [].
+
+(* limits: maxEntriesPerZone of the proof index (the SOA entry counts) and of the cut cache *)
+Record limits := mk_limits { lim_index : nat; lim_cuts : nat }.
 
 Fixpoint reindex_from (i : nat) (l : list cnsec) : list cnsec :=
   match l with [] => [] | r :: t => mk_cnsec (c_owner r) (c_next r) (c_types r) (c_class r) i :: reindex_from (S i) t end.
 Definition reindex_c := reindex_from O.
 
 Definition same_owner (a b : cnsec) : bool := rname_eqb (c_owner a) (c_owner b).
-(* denialProofCache.recordWithKind: every RRset replaces the entry with the same id *)
+
+(* canonical owner order (denialProofNameOrder.compare): extract sorts the proof RRsets of one message,
+   publishZoneLocked sorts the zone's NSEC entries *)
+Fixpoint insert_canon (r : cnsec) (l : list cnsec) : list cnsec :=
+  match l with
+  | [] => [r]
+  | h :: t => if is_lt (ncmp (c_owner r) (c_owner h)) then r :: l else h :: insert_canon r t
+  end.
+Definition sort_canon (l : list cnsec) : list cnsec := fold_right insert_canon [] l.
+
+(* denialProofCache.recordWithKind: every RRset replaces the entry with the same id and joins the
+   FIFO at the back *)
 Definition put_rec (l : list (cnsec * Z)) (r : cnsec) (e : Z) : list (cnsec * Z) :=
   filter (fun x => negb (same_owner (fst x) r)) l ++ [(r, e)].
 Definition put_recs (l : list (cnsec * Z)) (rs : list cnsec) (e : Z) : list (cnsec * Z) :=
   fold_left (fun acc r => put_rec acc r e) rs l.
-Definition put_cut (l : list (rname * Z * list cnsec)) (d : rname) (e : Z) (rs : list cnsec) :=
-  filter (fun x => negb (rname_eqb (fst (fst x)) d)) l ++ [(d, e, rs)].
+(* FIFO eviction: the oldest entries go until n remain *)
+Definition keep_newest {A} (n : nat) (l : list A) : list A := skipn (length l - n) l.
 
-(* RecordDenialProof + RecordNXDomainCut for one complete signed message whose every TTL bound
-   gives the deadline e *)
-Definition admit_proof (st : shared) (now : Z) (zone q : rname) (rcode : N) (rs : list cnsec) (e : Z) : shared :=
+(* Store.RecordDenialProof for one complete signed message about q whose every TTL bound gives the
+   deadline e.  extract: q at or below the zone, at least one NSEC RRset, a positive lifetime;
+   recordWithKind: a bundle (SOA + RRsets) above the per-zone entry limit is refused whole; otherwise
+   the SOA entry is replaced (its expiry is the new deadline, longer or shorter), the RRsets land in
+   canonical order, and enforceZoneLimitsLocked evicts the zone's oldest entries — the SOA entry, just
+   re-queued in front of its bundle, is never among them *)
+Definition record_index (lim : limits) (st : shared) (now : Z) (zone q : rname) (rs : list cnsec) (e : Z) : shared :=
   if (e <=? now) || negb (prefix_b zone q) then st else
   match rs with
-  | [] => st                                             (* no proof RRset: extract refuses *)
+  | [] => st
   | _ =>
-    mk_shared (Some e) (put_recs (sh_recs st) rs e)
-      (if (rcode =? 3)%N && negb (rname_eqb q zone) then put_cut (sh_cuts st) q e rs else sh_cuts st)
+    if (lim_index lim <? S (length rs))%nat then st else
+    mk_shared (Some e) (keep_newest (lim_index lim - 1) (put_recs (sh_recs st) (sort_canon rs) e)) (sh_cuts st)
+  end.
+
+(* Store.RecordNXDomainCut (NXDOMAIN only; called whatever RecordDenialProof returned): the denied name
+   strictly below the zone, a proof RRset, a positive lifetime; an older cut of the same name is
+   replaced, the new one joins the zone's FIFO at the back, the oldest go beyond the limit *)
+Definition record_cut (lim : limits) (st : shared) (now : Z) (zone q : rname) (rs : list cnsec) (e : Z) : shared :=
+  if (e <=? now) || negb (prefix_b zone q) || rname_eqb q zone then st else
+  match rs with
+  | [] => st
+  | _ =>
+    mk_shared (sh_soa st) (sh_recs st)
+      (keep_newest (lim_cuts lim) (filter (fun x => negb (rname_eqb (fst x) q)) (sh_cuts st) ++ [(q, e)]))
   end.
 
 (* the downstream (resolver) response of an exchange *)
@@ -53,63 +89,81 @@ Inductive downstream :=
 Definition admission_guard (req_cd req_ecs marked aggressive res_cd : bool) : bool :=
   negb req_ecs && negb req_cd && negb res_cd && marked && aggressive.
 
-Definition live_recs (now : Z) (l : list (cnsec * Z)) : list cnsec :=
-  map fst (filter (fun x => now <? snd x) l).
+Definition admit_downstream (lim : limits) (maxttl : Z) (st : shared) (now : Z) (zone q : rname) (cd ecs : bool)
+           (ds : downstream) : shared :=
+  match ds with
+  | DsPositive => st
+  | DsNegative rcode rs ttl marked aggressive res_cd =>
+      if admission_guard cd ecs marked aggressive res_cd then
+        let e := now + Z.min ttl maxttl in
+        let st1 := record_index lim st now zone q (canon_recs rs) e in
+        if (rcode =? 3)%N then record_cut lim st1 now zone q (canon_recs rs) e else st1
+      else st
+  end.
 
-Fixpoint find_cut (now : Z) (cuts : list (rname * Z * list cnsec)) (q : rname) (k : nat) : option (rname * Z * list cnsec) :=
+Definition is_live (now : Z) {A} (x : A * Z) : bool := now <? snd x.
+
+(* nxDomainCutCache.lookup: the closest denied ancestor-or-self, longest first; an expired entry met on
+   the way is removed and the walk goes on; the first live one answers.  Returns the cuts left and
+   the hit *)
+Fixpoint cut_walk_sh (now : Z) (cuts : list (rname * Z)) (q : rname) (k : nat) : list (rname * Z) * option rname :=
   match k with
-  | O => None
+  | O => (cuts, None)
   | S k' =>
-      match find (fun x => rname_eqb (fst (fst x)) (firstn k q)) cuts with
-      | Some x => if now <? snd (fst x) then Some x else find_cut now cuts q k'
-      | None => find_cut now cuts q k'
+      let d := firstn k q in
+      match find (fun x => rname_eqb (fst x) d) cuts with
+      | Some x => if now <? snd x then (cuts, Some d)
+                  else cut_walk_sh now (filter (fun x => negb (rname_eqb (fst x) d)) cuts) q k'
+      | None => cut_walk_sh now cuts q k'
       end
   end.
 
-Definition nth_recs (l : list cnsec) (idx : list nat) : list cnsec :=
-  flat_map (fun i => match nth_error l i with Some r => [r] | None => [] end) idx.
-Definition min_expiry (l : list (cnsec * Z)) (rs : list cnsec) (start : Z) : Z :=
-  fold_left (fun acc r => match find (fun x => same_owner (fst x) r) l with
-                          | Some x => Z.min acc (snd x) | None => acc end) rs start.
+(* denialProofCache.lookupWithMeta for the zone (a candidate only when it is an ancestor-or-self of q):
+   a zone without a live SOA is retired outright; otherwise expired NSEC entries are pruned and the live
+   ones, in canonical order, go to the RFC 8198 evaluator.  Returns the index left and the RCODE of a
+   synthesized denial *)
+Definition index_lookup (st : shared) (now : Z) (zone q : rname) (qtype : N) : shared * option N :=
+  if negb (prefix_b zone q) then (st, None) else
+  match sh_soa st with
+  | None => (st, None)
+  | Some se =>
+      if now <? se then
+        let live := filter (is_live now) (sh_recs st) in
+        let st' := mk_shared (sh_soa st) live (sh_cuts st) in
+        let recs := reindex_c (sort_canon (map fst live)) in
+        (* nothing expired: the published, pre-validated set (EvaluateAggressiveNSECSet); otherwise the
+           per-query path over the live records (EvaluateAggressiveNSECPrepared) *)
+        match (if (length live =? length (sh_recs st))%nat then aggr_nsec_set else aggr_nsec) q qtype 1%N zone recs with
+        | A_deny rc _ => (st', Some rc)
+        | A_err _ => (st', None)
+        end
+      else (mk_shared None [] (sh_cuts st), None)
+  end.
 
 (* one client exchange through Cache.ServeDNS; returns the new state and what the client saw:
    None = the downstream answer, Some rcode = a denial synthesized from shared state *)
-Definition exchange (maxttl : Z) (st : shared) (now : Z) (zone q : rname) (qtype : N) (cd ecs : bool) (ds : downstream)
-  : shared * option N :=
-  let from_downstream (st : shared) :=
-    match ds with
-    | DsPositive => (st, None)
-    | DsNegative rcode rs ttl marked aggressive res_cd =>
-        if admission_guard cd ecs marked aggressive res_cd
-        then (admit_proof st now zone q rcode (canon_recs rs) (now + Z.min ttl maxttl), None)
-        else (st, None)
-    end in
-  if cd || ecs then from_downstream st else
-  match find_cut now (sh_cuts st) q (length q) with
-  | Some (d, e, rs) =>
-      (* subtree-cut hit: NXDOMAIN; the served proof is re-admitted with the cut's own deadline *)
-      (admit_proof st now zone d 3%N rs e, Some 3%N)
+Definition exchange (lim : limits) (maxttl : Z) (st : shared) (now : Z) (zone q : rname) (qtype : N) (cd ecs : bool)
+           (ds : downstream) : shared * option N :=
+  if cd || ecs then (admit_downstream lim maxttl st now zone q cd ecs ds, None) else
+  let '(cuts, hit) := cut_walk_sh now (sh_cuts st) q (length q) in
+  let st := mk_shared (sh_soa st) (sh_recs st) cuts in
+  match hit with
+  | Some _ => (st, Some 3%N)
   | None =>
-      if negb (prefix_b zone q) then from_downstream st else     (* the zone is no ancestor: no candidate *)
-      match sh_soa st with
-      | Some se =>
-          if now <? se then
-            let live := live_recs now (sh_recs st) in
-            match aggr_nsec q qtype 1%N zone (reindex_c live) with
-            | A_deny rc proof =>
-                let used := nth_recs live proof in
-                let e := min_expiry (sh_recs st) used se in
-                (admit_proof st now zone q rc used e, Some rc)
-            | A_err _ => from_downstream st
-            end
-          else
-            (* a zone without a live SOA is retired outright by the lookup that notices it *)
-            from_downstream (mk_shared None [] (sh_cuts st))
-      | None => from_downstream st
+      match index_lookup st now zone q qtype with
+      | (st, Some rc) => (st, Some rc)
+      | (st, None) => (admit_downstream lim maxttl st now zone q cd ecs ds, None)
       end
   end.
 
+(* what the driver reads back from the real Store after each exchange: SOA expiry, number of NSEC
+   entries of the zone and the sum of their expiries, number of cuts of the zone, number of live cuts *)
+Record shobs := mk_shobs { so_soa : option Z; so_nrec : N; so_sum : Z; so_ncut : N; so_nlive : N }.
+Definition observe_shared (now : Z) (st : shared) : shobs :=
+  mk_shobs (sh_soa st) (N.of_nat (length (sh_recs st))) (fold_left (fun a x => a + snd x) (sh_recs st) 0)
+           (N.of_nat (length (sh_cuts st))) (N.of_nat (length (filter (is_live now) (sh_cuts st)))).
+
 (* histories *)
 Inductive shop :=
-| ShExchange (q : name) (qtype : N) (cd ecs : bool) (ds : downstream) (synth : option N)
+| ShExchange (q : name) (qtype : N) (cd ecs : bool) (ds : downstream) (synth : option N) (obs : shobs)
 | ShAdvance (s : Z).
